@@ -75,17 +75,67 @@ def run_check(prop, tier="quick", root="/repo", overlay=None, quiet=False):
     ctx = Ctx(root=root, overlay=overlay)
     mod = importlib.import_module("stverif.rules." + prop.lower())
     rep = Report(prop)
-    mod.run(ctx, rep, tier)
+    rep.refused = []
+    _run_clauses(mod, ctx, rep, tier)
     from .rules.common import cross_cutting
-    cross_cutting(ctx, rep, prop)
+    try:
+        cross_cutting(ctx, rep, prop)
+    except AnchorError as e:
+        rep.refused.append(("cross_cutting", str(e)))
     for clause, floor in getattr(mod, "FLOOR", {}).items():
         n = rep.count(clause)
         # a violation found in the clause explains a reduced count (a rule that reports the broken construct returns early):
         # the violation is the verdict, the floor guards only against rules that silently match nothing
-        if n < floor and not any(i.clause == clause and i.status == "violation" for i in rep.items):
-            raise AnchorError(f"{prop}-{clause}: {n} rule instances found, confirmed floor is {floor} "
-                              f"(an anchor moved or the rule no longer recognises the construct)")
+        if n < floor and not any(i.clause == clause and i.status == "violation" for i in rep.items) \
+                and not any(r[0] != "floor" for r in rep.refused):
+            rep.refused.append(("floor", f"{prop}-{clause}: {n} rule instances found, confirmed floor is {floor} "
+                                         f"(an anchor moved or the rule no longer recognises the construct)"))
+    if rep.refused:
+        # a clause that could not find what it reasons about decides nothing.  If another clause found a violation that is not a
+        # known finding, that violation is the verdict (and the refusals are printed with it); otherwise the run is an ANALYSIS-ERROR
+        new, _ = classify(prop, rep, load_known())
+        if not new:
+            raise AnchorError(rep.refused[0][1] + (f" (+{len(rep.refused) - 1} more)" if len(rep.refused) > 1 else ""))
     return ctx, rep, mod
+
+
+def _run_clauses(mod, ctx, rep, tier):
+    """mod.run(ctx, rep, tier) with every clause function of the module (signature starting `ctx, rep`) run to completion
+    independently: an AnchorError inside one clause is recorded and the remaining clauses are still evaluated"""
+    import inspect
+    import types
+    depth = [0]
+    saved = {}
+
+    def wrap(fn):
+        def w(*a, **k):
+            depth[0] += 1
+            try:
+                return fn(*a, **k)
+            except AnchorError as e:
+                if depth[0] > 1:
+                    raise           # inside another clause function: that one is the unit
+                rep.refused.append((fn.__name__, str(e)))
+                return None
+            finally:
+                depth[0] -= 1
+        return w
+    for name, fn in list(vars(mod).items()):
+        if isinstance(fn, types.FunctionType) and name != "run":
+            try:
+                params = list(inspect.signature(fn).parameters)
+            except (TypeError, ValueError):
+                continue
+            if params[:2] == ["ctx", "rep"]:
+                saved[name] = fn
+                setattr(mod, name, wrap(fn))
+    try:
+        mod.run(ctx, rep, tier)
+    except AnchorError as e:
+        rep.refused.append(("run", str(e)))
+    finally:
+        for name, fn in saved.items():
+            setattr(mod, name, fn)
 
 
 def classify(prop, rep, known):
@@ -156,6 +206,8 @@ def main(argv=None):
     if a.verbose:
         for i in rep.items:
             print(f"  {i.status:9s} {i.clause:4s} {i.rule:18s} {i.construct}  {i.loc}  {i.detail}")
+    for who, why in getattr(rep, "refused", []):
+        print(f"  not analysed ({who}): {why}")
     for i, k in old:
         print(f"KNOWN-FINDING: property={prop} {i.clause} {i.rule} {i.construct} @ {i.loc}: {k.get('what', i.detail)}")
     au = extra.get("audit", {}) if a.tier == "thorough" else {}
